@@ -520,7 +520,7 @@ package block
 
 //@ func (m *Manager) processNextDAHeaderAndData(ctx) (err)
 //@   property C09
-//@   requires [wiring] m.metrics != nil && m.daHeight != nil && m.headerCache != nil && m.dataCache != nil
+//@   requires [wiring] m.metrics != nil && m.daHeight != nil && m.headerCache != nil && m.dataCache != nil && m.logger != nil && ctx != nil && len(m.genesis.ProposerAddress) > 0
 //@   observe fb := call fetchBlobs
 //@   observe hph := call handlePotentialHeader
 //@   observe hpd := call handlePotentialData
@@ -540,7 +540,7 @@ package block
 
 //@ func (m *Manager) RetrieveLoop(ctx)
 //@   property C09
-//@   requires [wiring] m.metrics != nil && m.daHeight != nil && m.headerCache != nil && m.dataCache != nil && ctx != nil
+//@   requires [wiring] m.metrics != nil && m.daHeight != nil && m.headerCache != nil && m.dataCache != nil && ctx != nil && m.logger != nil && len(m.genesis.ProposerAddress) > 0
 //@   observe pn := call processNextDAHeaderAndData
 //@   modifies m.daHeight.v, m.headerCache.daInc, m.headerCache.daIncHas, m.dataCache.daInc, m.dataCache.daIncHas
 //@   loop 1 invariant [advance-iff] pn.count == 1 ==> ((m.daHeight.v == U64Inc(iter(m.daHeight.v))) <==> (pn.res0 == nil || ctxDone(ctx)))
